@@ -15,6 +15,7 @@ import DuckModel.Drv.C14
 import DuckModel.Drv.C16
 import DuckModel.Drv.C17
 import DuckModel.Drv.C18
+import DuckModel.Drv.C19
 import DuckModel.Drv.C20
 
 namespace Duck.Driver
@@ -32,6 +33,7 @@ def handlers : List (List String → Option String) := [
   Duck.Drv.C16.handle,
   Duck.Drv.C17.handle,
   Duck.Drv.C18.handle,
+  Duck.Drv.C19.handle,
   Duck.Drv.C20.handle
 ]
 
